@@ -276,6 +276,11 @@ def _run_net(scn, w, net, res):
                 return None
             if op["op"] == "reconfigure":
                 base = [0xC3, 0x3C, 0x33, 0xCE, 0x3E, 0xE3]
+                if op["suffix_rot"]:
+                    # new suffix bytes, unique to this node: it leaves the others' address space (a mere re-ordering of the shared
+                    # suffix bytes on one node would make its pipes coincide with other nodes' pipes - a mis-configured network)
+                    j = [nd["addr"] for nd in scn["nodes"]].index(op["node"]) % 16
+                    base = [0x20 + j, 0x40 + j, 0x60 + j, 0x80 + j, 0xA0 + j, 0xD0 + j]
                 node.address_prefix = bytearray([op["prefix"]])
                 node.address_suffix = bytearray(base[op["suffix_rot"]:] + base[:op["suffix_rot"]])
                 node.allow_multicast = op["multicast"]
